@@ -176,6 +176,15 @@ PROPS = {
         assumptions=COMMON_ASSUME + ["address windows never wrap around 2^32"],
         targets=[enum("enum", ["props/C03_enum.cpp"], qs=12, ts=16)],
     ),
+    "C04": dict(
+        level="exploration",
+        exhaustive_possible=False,
+        rule="cases are table descriptions (valid, valid-perturbed-by-one-step, raw grid); oracle = the model's set of violated rules with indices (accept iff empty; otherwise the reported "
+             "rule must be violated and carry the first index of that rule), post-conditions after success, UNINITIALISED after failure; non-trivial = a one-step perturbation that yields "
+             "at most one violation, or a grid description with exactly one violation; distinct by description",
+        assumptions=COMMON_ASSUME + ["with several violated rules any of them may be reported (with its own first index)"],
+        targets=[enum("enum", ["props/C04_enum.cpp"], qs=12, ts=16)],
+    ),
 }
 
 NOTE_COMMON = ("trusted: clang/ASan/UBSan, the harness and its reference model; the search is bounded (see evidence: tier bounds and counts); "
@@ -291,6 +300,14 @@ MANIFEST_TEXT = {
         level_text="For every generated table each window of the flat address space is read into an exact-size buffer guarded by canary words and compared with the model (zero for write-only "
                    "areas, first unmapped address otherwise); each window is also iterated with callbacks that stop positively or negatively at every position, and the visited handles are "
                    "compared with the registers the model says overlap the range.",
+        level_note=NOTE_COMMON,
+    ),
+    "C04": dict(
+        engine="enum (stratified generation)",
+        technique="stratified generation of table descriptions (valid / one-step perturbed / raw grid) against a rule-set model with indices and storage post-conditions",
+        level_text="Half of the descriptions are valid tables perturbed in exactly one rule by exactly one step (off-by-one at area ends for every register size, overlap by one word, swapped "
+                   "neighbours, defaults pushed across their bound), a quarter are valid tables, a quarter come from a small raw grid; the model computes the set of violated rules, and after "
+                   "success the storage image, the per-area register runs and typed access are compared. Sampling, not the full cross product (which is 99.9% first-rule failures).",
         level_note=NOTE_COMMON,
     ),
 }
